@@ -44,6 +44,9 @@ def run(ctx):
             # named as if nothing had happened
             trees.poison(rng, d, I.naming.auto_name)
             ctx.count("history: call that fails half-way")
+        if rng.random() < 0.15:
+            d = trees.repeat_a_sibling(rng, d)
+            ctx.count("trees with a repeated operand")
         o = common.load_tree(d)
         info = {"tree": d}
         if rng.random() < 0.15:
